@@ -76,7 +76,7 @@ impl Check for SpscCheck {
         vec!["fault:preempt", "fault:timeout_fired", "read_and_write_window_live_together", "producer_saw_full", "consumer_saw_empty", "wrapped"]
     }
     fn run(&self, src: &mut Src, ctx: &mut RunCtx) -> RunResult {
-        let pages = *src.pick(&[1usize, 1, 2]);
+        let pages = *src.pick(&[1usize, 1, 2, 3]);
         let total: u64 = match src.below(4) {
             0 => src.range(1, 50) as u64,
             1 => src.range(50, 400) as u64,
